@@ -426,6 +426,7 @@ def observe(net, d):
             j = int(imap[k])
             fi, ti = int(ibr[j, F_BUS]), int(ibr[j, T_BUS])
             o.selfloop = fi == ti
+            o.fi, o.ti = fi, ti                     # ppci (internal) bus numbers of the two terminals
             o.stamps = [complex(Yf[j, fi]), complex(Yf[j, ti]), complex(Yt[j, fi]), complex(Yt[j, ti])]
             o.flows = [complex(row[PF], row[QF]), complex(row[PT], row[QT])]
         o.vf, o.vt = complex(V[o.f]), complex(V[o.t])
@@ -455,8 +456,9 @@ def observe(net, d):
             vnfrom = float(net.bus.vn_kv.at[net.line.from_bus.iat[i]])
             basekv = float(bus[net._pd2ppc_lookups["bus"][net.line.from_bus.iat[i]], BASE_KV])
             o.lterm = line_term(l, d)
-            o.term = "run_elem (Ok (line_branch %s %s %s %s %s %s %s)) [] %s" % (
-                q(sn), q(d["f_hz"]), q(math.pi), q(SQRT3), q(basekv), q(vnfrom), o.lterm, tail(o))
+            o.rowterm = "(Ok (line_branch %s %s %s %s %s %s %s))" % (
+                q(sn), q(d["f_hz"]), q(math.pi), q(SQRT3), q(basekv), q(vnfrom), o.lterm)
+            o.term = "run_elem %s [] %s" % (o.rowterm, tail(o))
             out.append(o)
     cva = d["opt"]["cva"]
     tmt = cq.b(d["opt"]["trafo_model"] == "t")
@@ -482,9 +484,9 @@ def observe(net, d):
                 tapx = "(tap_second %s %s %s)" % (tapx, tapc_term(a2["side"], a2["type"], a2["pos"], a2["neutral"], a2["pct"], a2["deg"]), tap_orc_term(to2))
                 vnh, vnl, _ = apply_tap_py(a2["side"], a2["type"], a2["pos"], a2["neutral"], a2["pct"], a2["deg"], vnh, vnl, 0.0, to2)
             oo = trafo_oracle(t, vnl, baselv, sn)
-            o.term = "run_elem (trafo_row %s %s %s %s %s %s %s) (trafo_resids %s %s %s %s %s %s %s) %s" % (
-                q(sn), tmt, o.tterm, trafo_orc_term(oo), tapx, q(basehv), q(baselv),
-                q(sn), o.tterm, trafo_orc_term(oo), tc, tap_orc_term(to), tapx, q(baselv), tail(o))
+            o.rowterm = "(trafo_row %s %s %s %s %s %s %s)" % (q(sn), tmt, o.tterm, trafo_orc_term(oo), tapx, q(basehv), q(baselv))
+            o.term = "run_elem %s (trafo_resids %s %s %s %s %s %s %s) %s" % (
+                o.rowterm, q(sn), o.tterm, trafo_orc_term(oo), tc, tap_orc_term(to), tapx, q(baselv), tail(o))
             out.append(o)
     if "trafo3w" in lk:
         f0, f1 = lk["trafo3w"]
@@ -504,23 +506,30 @@ def observe(net, d):
                      "i0": w["i0"] if {"hv": 0, "mv": 1, "lv": 2}.get(w["loss"], 3) == blk else 0.0,
                      "pfe": w["pfe"] if {"hv": 0, "mv": 1, "lv": 2}.get(w["loss"], 3) == blk else 0.0}
                 oo = trafo_oracle(t, vnl, o.baset, sn)
-                o.term = "run_elem (t3_row %s %s %s %s %s %s %d%%nat %s %s %s %s) (t3_resids %s %s) %s" % (
+                o.c_off = (vnl / o.baset) ** 2            # off-nominal factor (vn_lv,tap-adjusted / V_N,lv-bus)^2 of this block
+                o.rowterm = "(t3_row %s %s %s %s %s %s %d%%nat %s %s %s %s)" % (
                     q(sn), tmt, cq.b(cva), t3_term(w), tap3_term(w), o3t, blk, tap_orc_term(to), trafo_orc_term(oo),
-                    q(o.basef), q(o.baset), t3_term(w), o3t, tail(o))
+                    q(o.basef), q(o.baset))
+                # residuals of the sqrt oracles of the vk conversion and of this block's x (hypotheses of C02_t3_star_pairwise)
+                o.term = "run_elem %s (app (t3_resids %s %s) (t3_block_resid %s %s %s %s %d%%nat %s %s %s)) %s" % (
+                    o.rowterm, t3_term(w), o3t, q(sn), t3_term(w), tap3_term(w), o3t, blk, tap_orc_term(to), trafo_orc_term(oo),
+                    q(o.baset), tail(o))
                 out.append(o)
     if "impedance" in lk:
         f0, _ = lk["impedance"]
         for i, im in enumerate(d["imp"]):
             o = common(f0 + i)
             o.kind, o.idx, o.el = "impedance", i, im
-            o.term = "run_elem (Ok (impedance_branch %s %s)) [] %s" % (q(sn), imp_term(im), tail(o))
+            o.rowterm = "(Ok (impedance_branch %s %s))" % (q(sn), imp_term(im))
+            o.term = "run_elem %s [] %s" % (o.rowterm, tail(o))
             out.append(o)
     if "xward" in lk:
         f0, _ = lk["xward"]
         for i, x in enumerate(d["xward"]):
             o = common(f0 + i)
             o.kind, o.idx, o.el = "xward", i, x
-            o.term = "run_elem (Ok (xward_branch %s %s %s %s %s)) [] %s" % (q(sn), q(o.basef), q(x["r"]), q(x["x"]), cq.b(x["in"]), tail(o))
+            o.rowterm = "(Ok (xward_branch %s %s %s %s %s))" % (q(sn), q(o.basef), q(x["r"]), q(x["x"]), cq.b(x["in"]))
+            o.term = "run_elem %s [] %s" % (o.rowterm, tail(o))
             out.append(o)
     if "switch" in lk:
         f0, _ = lk["switch"]
@@ -528,7 +537,8 @@ def observe(net, d):
             o = common(f0 + i)
             o.kind, o.idx, o.el = "switch", i, s
             rx = d["opt"]["rx"]
-            o.term = "run_elem (Ok (switch_branch %s %s %s %s %s)) [] %s" % (q(sn), q(o.basef), q(s["z"]), q(rx), q(math.sqrt(1 + rx ** 2)), tail(o))
+            o.rowterm = "(Ok (switch_branch %s %s %s %s %s))" % (q(sn), q(o.basef), q(s["z"]), q(rx), q(math.sqrt(1 + rx ** 2)))
+            o.term = "run_elem %s [] %s" % (o.rowterm, tail(o))
             out.append(o)
     return out
 
